@@ -703,6 +703,26 @@ def c20_stream_rows(ctx):
     return p
 
 
+def c20_mpf_units(ctx, gen):
+    """mpf_class expression trees (CxxExpr KIND "f") -> generated translation units fu*.cc + fmain.cc in gen; returns their paths"""
+    import re, glob
+    from verif import sh
+    q = ctx.tier == 'quick'
+    r = assume_model(ctx, 'CxxExpr', {'KIND': '"f"'}, name='CxxExpr-f', timeout=3000)
+    ctx.model_must_hold(r)
+    p = os.path.join(ctx.scratch, 'trees-f.out'); open(p, 'w').write(r['out'])
+    n = len(re.findall(r'^<<"TREE", "f", <<.*>>>>$', r['out'], re.M))
+    want = re.search(r'<<"CxxExpr", "f", (\d+)>>', r['out'])
+    if not want or int(want.group(1)) != n: raise Machinery(f'CxxExpr-f: {n} trees parsed from the TLC output, the model reports {want.group(1) if want else "?"}')
+    need(n, 3000, 'C20 mpf_class trees')
+    for mm in ctx.models:
+        if mm['name'] == 'CxxExpr-f': mm['states'] = max(mm['states'], n); mm['transitions'] = mm['states']
+    rc, out = sh(['python3', os.path.join(VERIF, 'lib/cxxgen_f.py'), p, gen, str(ctx.seed), '1000' if q else '0'], timeout=600)
+    if rc != 0: raise Machinery('cxxgen_f failed: ' + out[-2000:])
+    ctx.notes.append('mpf generator: ' + out.strip())
+    return sorted(glob.glob(os.path.join(gen, 'fu*.cc'))) + [os.path.join(gen, 'fmain.cc')]
+
+
 def split_validate(ctx, tracep, stem, n=16):
     """split one ndjson file at execution boundaries into n files and validate them in parallel"""
     lines = open(tracep).read().splitlines(); chunks = [[] for _ in range(n)]; k = -1
@@ -736,7 +756,7 @@ def check_C20(ctx):
     if rc != 0: raise Machinery('cxxgen failed: ' + out[-2000:])
     ctx.notes.append('generator: ' + out.strip())
     rowsp = c20_stream_rows(ctx)
-    srcs = sorted(glob.glob(os.path.join(gen, '*.cc'))) + [os.path.join(VERIF, 'harness/cxx_conv.cc'), os.path.join(VERIF, 'harness/cxx_stream.cc'), os.path.join(VERIF, 'harness/cxx_mpf.cc')]
+    srcs = sorted(glob.glob(os.path.join(gen, '*.cc'))) + c20_mpf_units(ctx, os.path.join(ctx.scratch, 'cxxf')) + [os.path.join(VERIF, 'harness/cxx_conv.cc'), os.path.join(VERIF, 'harness/cxx_stream.cc'), os.path.join(VERIF, 'harness/cxx_mpf.cc')]
     def comp(s):
         o = os.path.join(gen, os.path.basename(s) + '.o')
         return sh(['g++', '-O0', '-w', f'-I{bx}', '-c', s, '-o', o], timeout=900) + (o,)
